@@ -406,7 +406,25 @@ class CallMixin:
             return False
         if f.is_contextmanager:
             return False
+        if self.opts.inline is not None and self.opts.inline.__name__ == 'default_inline':
+            # a closure whose defining function is active (handed to a helper as a callback)
+            if f.parent is not None and (f.parent in st.stack or f.parent is st.fn) and f is not st.fn:
+                return True
+            # a private method inherited from a base class / mixin of the package
+            if f.cls is not None and st.fn.cls is not None and f.cls != st.fn.cls and f.name.startswith('_') \
+                    and not f.name.startswith('__') and not f.is_property and self.is_base_of(f.cls, st.fn.cls):
+                return True
         return self.opts.inline(f, st.fn, nargs, kwnames)
+
+    def is_base_of(self, base, cls, depth=0):
+        ci = self.prog.classes.get(cls)
+        if ci is None or depth > 5:
+            return False
+        for b in ci.bases:
+            b = b.split('.')[-1]
+            if b == base or self.is_base_of(base, b, depth + 1):
+                return True
+        return False
 
     def bind_args(self, f, recv, args, kwargs, st, starkw=None):
         env = {}
@@ -475,6 +493,14 @@ class CallMixin:
             cenv = dict(st.env)
             cenv.update(env)
             env = cenv
+        elif f.parent is not None:
+            # a closure called back from a helper: free variables read the bindings of its defining activation
+            for fr_fn, fr_env, _ in reversed(st.frames):
+                if fr_fn is f.parent:
+                    cenv = dict(fr_env)
+                    cenv.update(env)
+                    env = cenv
+                    break
         saved_env, saved_fn = st.env, st.fn
         st.push_frame(f, env, (getattr(node, 'lineno', 0), getattr(node, 'col_offset', 0)))
         out = []
